@@ -72,3 +72,22 @@ Example C03_nonvacuous :
   root_count F_amb = 2 /\ length (root_trees F_amb) = 2%nat
   /\ tree_at F_amb 1 <> tree_at F_amb 0.
 Proof. vm_compute. repeat split; discriminate. Qed.
+
+(* ---- the GLR driver model (Model/GLR.v) ---------------------------------------------------------
+   "Each derivation is packed once" is FALSE of the faithful model of GLRParser.parse: with the
+   implementation's LALR table for  S: 'b' 'b' | A; A: 'a' | S A;  on "aaaa" the model returns
+   a forest in which a packed node reachable from the root holds the same alternative (same
+   production, same span, same children) twice, so len(forest) counts derivations twice
+   (KF-C03-duplicate-packing; the implementation returns the identical forest). *)
+From PV Require Import Spec.Cfg Model.Table Model.Scan Model.Parser Model.GLR Model.ForestGraph
+  Validators.TableStruct Proofs.GLRWitness.
+
+Theorem C03_glr_model_duplicate_refuted :
+  exists (c : pconf) (inp : pinput) (fuel : nat) (start : N) (nodes : forest) (root k : nat),
+    pc_consume c = true /\
+    table_struct (pc_g c) (pc_tb c) start = true /\
+    glr_parse_full c inp fuel 0 = GLRForest nodes root /\
+    reach nodes root k /\ nodup_alts (nth k nodes []) = false /\
+    forest_nodup (glr_forest nodes root) = false.
+Proof. exact glr_model_duplicates. Qed.
+Print Assumptions C03_glr_model_duplicate_refuted.
